@@ -82,12 +82,21 @@ def seeded(case, ctx):
         raise Violation("C18.seeded.shape", f"{case['fn']} returned shape {a.shape} for {tuple(case['shape'])}")
     if not np.array_equal(a, b):
         raise Violation("C18.seeded.reproducible", f"{case['fn']} with the same arguments and seed gave different frames")
-    if case["seed2"] != case["seed"] and a.size >= 16:
-        with lentil_call("C18.seeded", case["fn"] + " (other seed)"):
-            c = np.asarray(call_fn(case, case["seed2"]))
-        if np.array_equal(a, c):
-            raise Violation("C18.seeded.seed_ignored", f"{case['fn']}: seeds {case['seed']} and {case['seed2']} gave the "
-                                                       f"same frame")
+    if a.size >= 16:
+        # a family of related seeds (neighbours, small strides, single flipped bits up to bit 31): all frames must
+        # differ pairwise - a seed that is reduced, truncated or partly ignored collides somewhere in the family
+        s0 = case["seed"]
+        family = [s0, case["seed2"], (s0 + 1) % 2**32, (s0 + 7) % 2**32, (s0 + 14) % 2**32, (s0 + 21) % 2**32,
+                  s0 ^ (1 << 8), s0 ^ (1 << 16), s0 ^ (1 << 31), (2 * s0 + 1) % 2**32]
+        family = list(dict.fromkeys(family))
+        frames = {s0: a}
+        with lentil_call("C18.seeded", case["fn"] + " (other seeds)"):
+            for sd in family[1:]:
+                frames[sd] = np.asarray(call_fn(case, sd))
+        for i, si in enumerate(family):
+            for sj in family[i + 1:]:
+                if np.array_equal(frames[si], frames[sj]):
+                    raise Violation("C18.seeded.seed_ignored", f"{case['fn']}: seeds {si} and {sj} gave the same frame")
     if not np.all(np.isfinite(a)):
         raise Violation("C18.seeded.finite", f"{case['fn']} returned non-finite values")
 
